@@ -318,3 +318,55 @@ func hPerms10(n int) [][]int {
 	}
 	return out
 }
+
+// VerifC10_ReceiverData: receiver data logged with a notification is returned unchanged
+// by later queries, whatever a later, unfinished notification attempt does with the
+// Store it built from the queried entry (set, overwrite, delete: the delivery then fails
+// and nothing is logged), and the held entry changes only through Log: after a
+// successful attempt the new data are returned and the timestamp has moved on.
+//
+//vf:quick unwind=8 decisions=200
+//vf:thorough unwind=8 decisions=200
+//vf:expect reach=abandoned-attempt reach=logged-again
+func VerifC10_ReceiverData() {
+	l := hNewLog10(time.Hour)
+	recv := &pb.Receiver{GroupName: "r", Integration: "slack", Idx: 0}
+	st := NewStore(nil)
+	st.SetStr("threadTs", "1111.1")
+	st.SetInt("attempts", 1)
+	vfAssert("log-ok", l.Log(recv, "gk", []uint64{1}, nil, st, 0) == nil)
+	vfAdvance(vfSeconds("later", 1, 600))
+	es, err := l.Query(QGroupKey("gk"), QReceiver(recv))
+	vfAssert("query-ok", err == nil && len(es) == 1)
+	ts1 := es[0].Timestamp.AsTime()
+	// a later attempt builds its store from the held entry and works on it
+	work := NewStore(es[0])
+	switch vfChoice("attemptDoes", 4) {
+	case 0:
+		work.SetInt("attempts", 2)
+	case 1:
+		work.SetStr("threadTs", "2222.2")
+	case 2:
+		work.Delete("threadTs")
+	case 3:
+		work.SetFloat("score", 1.5)
+	}
+	if vfBool("attemptSucceeds") {
+		vfAssert("log-ok", l.Log(recv, "gk", []uint64{1}, nil, work, 0) == nil)
+		es2, err := l.Query(QGroupKey("gk"), QReceiver(recv))
+		vfAssert("query-ok", err == nil && len(es2) == 1)
+		vfAssert("new-entry-has-a-newer-timestamp", es2[0].Timestamp.AsTime().After(ts1))
+		vfReach("logged-again")
+		return
+	}
+	// the attempt was abandoned: the held entry is exactly what was logged
+	es3, err := l.Query(QGroupKey("gk"), QReceiver(recv))
+	vfAssert("query-ok", err == nil && len(es3) == 1)
+	back := NewStore(es3[0])
+	ts, okT := back.GetStr("threadTs")
+	at, okA := back.GetInt("attempts")
+	_, okS := back.GetFloat("score")
+	vfAssert("receiver-data-returned-unchanged", okT && ts == "1111.1" && okA && at == 1 && !okS && len(es3[0].ReceiverData) == 2)
+	vfAssert("timestamp-unchanged-without-log", es3[0].Timestamp.AsTime().Equal(ts1))
+	vfReach("abandoned-attempt")
+}
